@@ -62,6 +62,8 @@ class GenericListTransformer(Generic[T]):
         self._feature_dims = feature_dims
         self._iter_kwargs = iter_kwargs
 
+        # Start from a clean slate so that refitting does not reuse stale transformers
+        self.transformers = []
         for i, x in enumerate(X):
             # Add transformer specific keyword arguments
             # For iterable kwargs, use the i-th element of the iterable
